@@ -172,8 +172,8 @@ let leader_work j (r : nrec) =
          later entries may not be persisted yet) *)
       let k = min r.commiti (List.length n.log) in
       if not (ackedb !st n.cur (nat k) (nat j)) then ignore (try_label (L_Ack (nat j, nat k)));
-      if not (commit_comparable !st (nat j) (nat r.commiti)) then
-        raise (Reject (Printf.sprintf "leader %d commits up to %d a prefix that conflicts with the log already committed" j r.commiti));
+      (* (apply_label refuses a commit that conflicts with the committed log; whether this node's new
+         commit index is explained at all is decided at the end of the synchronisation) *)
       ignore (try_label (L_AdvanceCommit (nat j, nat r.commiti)))
     end
   end
@@ -197,6 +197,10 @@ let sync_core j (r : nrec) (msgs : msg list) ~(conf_first : bool) =
   let cur0 = int_ (node j).cur in
   if r.term < cur0 then raise (Reject (Printf.sprintf "term went backwards without a restart: %d -> %d" cur0 r.term));
   let relevant m = m.mfrom = j && ((m.mtype = 5) || (m.mtype = 6 && not m.mreject) || (m.mtype = 4 && not m.mreject && m.mindex > 0)) in
+  (* MsgApp / MsgHeartbeat of a term the node no longer leads when the Ready goes out: it led that term inside the step *)
+  let led_terms = List.sort_uniq compare
+      (List.filter_map (fun m -> if m.mfrom = j && (m.mtype = 3 || m.mtype = 8) then Some m.mterm else None) msgs) in
+  let app_msgs = List.filter (fun m -> m.mfrom = j && m.mtype = 3) msgs in
   let msgs = List.filter relevant msgs in
   let log_differs () = not (match_log (node j) r.o) in
   (* a candidate whose recorded log continues with entries of its own term has led that term *)
@@ -209,6 +213,20 @@ let sync_core j (r : nrec) (msgs : msg list) ~(conf_first : bool) =
         do_ (L_BecomeLeader nj);
         leader_work j r
       | _ -> () in
+  (* a candidate whose Ready carries MsgApp/MsgHeartbeat of its own term has led that term inside the
+     step, even if its recorded log no longer shows the entries (a newer leader replaced them later in
+     the same step): elect it and append what its MsgApp carried *)
+  let transient_leader_msgs u =
+    let n = node j in
+    if n.rl = Candidate && int_ n.cur = u && List.mem u led_terms then begin
+      if not (camp_exposed !st n.cur nj) then do_ (L_ExposeCamp nj);
+      do_ (L_BecomeLeader nj);
+      let sorted = List.sort (fun a b -> compare a.mindex b.mindex) (List.filter (fun m -> m.mterm = u) app_msgs) in
+      List.iter (fun m ->
+          List.iteri (fun i (e : entry) ->
+              let pos = m.mindex + i + 1 in
+              if pos = List.length (node j).log + 1 && int_ e.eterm = u then do_ (L_LeaderAppend (nj, e))) m.ments) sorted
+    end in
   (* the term in which the recorded log was adopted from a leader *)
   let repl_level () =
     if not (log_differs ()) then None
@@ -224,7 +242,7 @@ let sync_core j (r : nrec) (msgs : msg list) ~(conf_first : bool) =
   let rl0 = repl_level () in
   let levels = List.sort_uniq compare
       (List.filter (fun u -> u >= cur0)
-         (r.term :: (match rl0 with Some w -> [w] | None -> []) @ List.map (fun m -> m.mterm) msgs)) in
+         (r.term :: (match rl0 with Some w -> [w] | None -> []) @ led_terms @ List.map (fun m -> m.mterm) msgs)) in
   List.iter (fun u ->
       (* move to term u *)
       let n = node j in
@@ -237,6 +255,15 @@ let sync_core j (r : nrec) (msgs : msg list) ~(conf_first : bool) =
           if (node j).rl = Leader then do_ (L_StepDown nj);
           do_ (L_Campaign nj)
         end else do_ (L_UpdateTerm (nj, nat u))
+      end;
+      (* exposures of the campaign first if the node went on to lead this term inside the step *)
+      if List.mem u led_terms && not (u = r.term && r.o.o_role = Leader) then begin
+        let n = node j in
+        if n.rl = Candidate && int_ n.cur = u then begin
+          (* the recorded log may still hold its own entries: the usual path; otherwise from the messages *)
+          transient_leader ();
+          transient_leader_msgs u
+        end
       end;
       (* what happened in this term, in an order the rules accept *)
       let acts = ref [] in
@@ -320,6 +347,9 @@ let sync_core j (r : nrec) (msgs : msg list) ~(conf_first : bool) =
       if n.rl = Leader then begin
         align_conf ();
         if not (try_label (L_AdvanceCommit (nj, nat r.commiti))) && not (try_label (L_LearnCommit (nj, nat r.commiti))) then
+          if r.commiti <= List.length (node j).log && not (commit_comparable !st nj (nat r.commiti)) then
+            raise (Reject (Printf.sprintf "leader %d commits up to %d a prefix that conflicts with the log already committed" j r.commiti))
+          else
           raise (Reject (Printf.sprintf "leader %d advanced its commit index to %d: no majority of the voters of its configuration has acknowledged that index in term %d (or the entry is not of its term), and the prefix is not committed otherwise" j r.commiti r.term))
       end else if not (try_label (L_LearnCommit (nj, nat r.commiti))) then
         raise (Reject (Printf.sprintf "node %d advanced its commit index to %d, but that prefix of its log is not committed (rule refused: LearnCommit)" j r.commiti))
